@@ -66,6 +66,14 @@ def open_file(src, data, lazy, raw_ts, memmap, tmp, plan=None):
     elif src == 'pathlib':
         import pathlib
         f = pathlib.Path(tmp) / 'f.tdms'
+    elif src == 'gzip':
+        # a seekable file object that is not the file: its descriptor belongs to the compressed container on disk
+        import gzip
+        gz = os.path.join(tmp, 'f.tdms.gz')
+        if not os.path.exists(gz):
+            with gzip.open(gz, 'wb') as g_:
+                g_.write(data)
+        f = gzip.open(gz, 'rb')
     else:
         f = os.path.join(tmp, 'f.tdms')
     fn = H.TdmsFile.open if lazy else H.TdmsFile.read
@@ -215,6 +223,10 @@ def run_file(item):
                 for raw_ts in (False, True):
                     for memmap in (False, True):
                         run_config(src, lazy, raw_ts, memmap)
+        for lazy in (False, True):
+            f = run_config('gzip', lazy, False, False)
+            if f is not None:
+                f.close()
         # short reads: find how many readinto calls a run makes, then inject at every position
         for lazy in (False, True):
             f = run_config('short', lazy, False, False, plan={})
